@@ -67,7 +67,7 @@ fn wide_family() -> ListSpace {
 }
 
 fn c14_spaces(thorough: bool) -> Vec<Box<dyn Space>> {
-    vec![Box::new(ms_b(if thorough { 5 } else { 4 }, true)), Box::new(ms_c()), Box::new(ms_d(thorough)), Box::new(wide_family()), Box::new(crate::families::scale_family(false)), Box::new(crate::families::unicode_family()), Box::new(crate::families::huge_family(if thorough { 400_000 } else { 150_000 })), Box::new(crate::families::alignment_family())]
+    vec![Box::new(ms_b(if thorough { 5 } else { 4 }, true)), Box::new(ms_c()), Box::new(ms_d(thorough)), Box::new(wide_family()), Box::new(crate::families::scale_family(false)), Box::new(crate::families::unicode_family()), Box::new(crate::families::huge_family(if thorough { 400_000 } else { 150_000 })), Box::new(crate::families::alignment_family()), Box::new(crate::families::big_multiclass_family())]
 }
 
 /// the deterministic enumeration shared by all processes
@@ -179,6 +179,14 @@ const FAILED_STRIDE: u64 = 4;
 
 /// worker: `pgmc c14-worker <quick|thorough> <outfile>`: (digest, flags) per state, preceded by the order probe
 pub fn c14_worker(args: &[String]) -> i32 {
+    if std::env::var_os("PGMC_PIN_ONE_CPU").is_some() {
+        // SAFETY: plain libc call on this process; failure is ignored (the process then simply is not pinned)
+        unsafe {
+            let mut set: libc::cpu_set_t = std::mem::zeroed();
+            libc::CPU_SET(0, &mut set);
+            let _ = libc::sched_setaffinity(0, std::mem::size_of::<libc::cpu_set_t>(), &set);
+        }
+    }
     let thorough = args.first().map(|s| s == "thorough").unwrap_or(false);
     let out = args.get(1).cloned().unwrap_or_default();
     let mut w = std::io::BufWriter::new(std::fs::File::create(&out).expect("create out"));
@@ -214,6 +222,12 @@ fn spawn_worker(cmd: &str, tier: Tier, out: &str, seed: Option<u64>) -> std::pro
     let exe = std::env::current_exe().expect("exe");
     let mut c = std::process::Command::new(exe);
     c.args([cmd, tier.name(), out]).env("PGMC_CHILD", "1").stdout(std::process::Stdio::null());
+    // one of the processes may use a single CPU only ("different processes": another core count / affinity / quota)
+    if seed == Some(2) {
+        c.env("PGMC_PIN_ONE_CPU", "1");
+    } else {
+        c.env_remove("PGMC_PIN_ONE_CPU");
+    }
     if let (Some(s), Some(shim)) = (seed, shim_path()) {
         c.env("LD_PRELOAD", shim).env("PGMC_HASH_SEED", s.to_string());
     } else {
@@ -335,7 +349,7 @@ pub fn run_c14(tier: Tier) -> i32 {
         prop: "C14",
         tier,
         level: "exploration",
-        rule: format!("(for every 4th input and every cache above 8 kB also: the bytes arriving in BufWriter (default / 1 / 16 / 4096-byte buffer), Cursor and LineWriter sinks equal the bytes a Vec receives) inputs enumerated exhaustively (MS-B depth <= {}, MS-C, MS-D, wide family with >= 6 keys per hash container, corpus files); every input is written in {} separately started processes with harness-owned hash seeds (getrandom shim) and 2 processes with OS seeds; in every process: two consecutive writes, for every 64th input two more writes from concurrent threads and eight writes with the mapping bytes placed at every address residue modulo 8 (also for every input containing non-ASCII bytes), for every 4th input four writes that FAIL part-way (the sink refuses everything after 0 / 24 / len/2 / len-1 bytes) each followed by a complete write on the same thread, and the length check against the header. All byte strings for one input must be identical. evaluations = inputs; distinct = distinct cache files", if t { 5 } else { 4 }, nseeds),
+        rule: format!("(for every 4th input and every cache above 8 kB also: the bytes arriving in BufWriter (default / 1 / 16 / 4096-byte buffer), Cursor and LineWriter sinks equal the bytes a Vec receives) inputs (incl. one 17 MiB mapping of 24000 classes; the process with seed 2 is pinned to a single CPU) enumerated exhaustively (MS-B depth <= {}, MS-C, MS-D, wide family with >= 6 keys per hash container, corpus files); every input is written in {} separately started processes with harness-owned hash seeds (getrandom shim) and 2 processes with OS seeds; in every process: two consecutive writes, for every 64th input two more writes from concurrent threads and eight writes with the mapping bytes placed at every address residue modulo 8 (also for every input containing non-ASCII bytes), for every 4th input four writes that FAIL part-way (the sink refuses everything after 0 / 24 / len/2 / len-1 bytes) each followed by a complete write on the same thread, and the length check against the header. All byte strings for one input must be identical. evaluations = inputs; distinct = distinct cache files", if t { 5 } else { 4 }, nseeds),
         bounds: json!({"scopes": c14_spaces(t).iter().map(|s| { let mut d = s.describe(); if d.get("alphabet").is_some() { d["alphabet"] = json!("see pgmc/src/e1.rs"); } d }).collect::<Vec<_>>(), "processes": nprocs, "owned_seeds": nseeds, "distinct_iteration_orders": distinct_orders}),
         assumptions: vec!["the 2^128 seed space is not enumerable: seeds are a finite harness-owned set; exhaustive is the input dimension".into(), "std RandomState draws its per-thread keys through getrandom (interposed by the shim) and increments them for every new table".into()],
         trusted_base: vec!["rustc/std".into(), "getrandom shim /verif/shim/getrandom_shim.c".into()],
